@@ -598,7 +598,7 @@ class EnvironKernel(Stream):
     QS = ["", "a=b", "a=b&c=d", "q=%C3%A9", "q=é", "x=1&x=2", "a+b=c%20d", "%zz", "k=%FF", "a=b#c", "é=ü&日本=😀", "a=%26%3D"]
     corpus = [
         {"path": hs(p), "base": b, "qs": hs(q)}
-        for p, b, q in [("/", 0, ""), ("/é/日本", 1, "q=é"), ("/a b", 2, "a=b"), ("/%41", 3, ""), ("/a\tb", 0, ""), ("/x?y", 0, "a=b"), ("//x/y", 0, ""), ("/a#b", 4, "k=%FF"), ("", 5, ""), ("rel/p", 6, ""), ("/%zz%", 7, "%zz"), ("/😀", 8, "é=ü")]
+        for p, b, q in [("/", 0, ""), ("/é/日本", 1, "q=é"), ("/a b", 2, "a=b"), ("/%41", 3, ""), ("/a\tb", 0, ""), ("/x?y", 0, "a=b"), ("//x/y", 0, ""), ("/a#b", 4, "k=%FF"), ("", 5, ""), ("rel/p", 6, ""), ("/%zz%", 7, "%zz"), ("/😀", 8, "é=ü"), ("/%2541", 0, ""), ("/a%2520b", 1, ""), ("/a%3Fb%23c", 0, "q=1")]
     ]
 
     def cases(self, rng, tier):
@@ -652,11 +652,31 @@ class EnvironKernel(Stream):
 
     def oracle(self, case, real_out):
         path = unhs(case["path"])
-        if real_out.startswith("EXC") or any(c in path for c in "%?#\t\r\n") or path.startswith("//") or not path.startswith("/"):
-            return None  # outside the domain of the round-trip claim (see stream environ-roundtrip)
-        got = unhs(real_out.split("|")[1].split(",")[0])
-        if got != path:
-            return f"Request.path {got!r} != {path!r}"
+        if real_out.startswith("EXC"):
+            return None
+        rpath, rroot, rhost, rurl = (unhs(x) for x in real_out.split("|")[1].split(","))
+        # the reconstructed URL must denote what the request reports: its path component unquotes to
+        # root_path + path, whatever characters (incl. decoded '?', '#', '%') the path contains
+        try:
+            sp = urlsplit(rurl)
+        except ValueError as e:
+            return f"Request.url {rurl!r} does not parse: {e}"
+        if unquote(sp.path) != rroot + rpath:
+            return f"Request.url path {sp.path!r} does not denote root_path + path = {rroot + rpath!r}"
+        if any(c in path for c in "%?#\t\r\n") or path.startswith("//") or not path.startswith("/"):
+            return None  # outside the domain of the exact round-trip claim (see stream environ-roundtrip)
+        if rpath != path:
+            return f"Request.path {rpath!r} != {path!r}"
+        return None
+
+    def finding_key(self, case, what):
+        # F15d: a literal '%' + two hex digits in the (already unquoted) root_path / path is left
+        # unquoted by get_current_url and then read as an escape
+        if what.startswith("Request.url path "):
+            out = self.real(case)
+            rpath, rroot = (unhs(x) for x in out.split("|")[1].split(",")[:2])
+            if re.search(r"%[0-9A-Fa-f]{2}", rroot + rpath):
+                return "F15d"
         return None
 
     def bucket(self, case, real_out):
@@ -782,7 +802,7 @@ CHECK = Check(
 
 MANIFEST = {
     "level_text": "Machine-checked Lean 4 theorems about an executable model of urllib quote/unquote with werkzeug's error handler, iri_to_uri / uri_to_iri on split components, the latin-1 dances and DispatcherMiddleware's mount loop: quote output is ASCII for every input and idempotent for every safe set iri_to_uri uses (decide on the literals collected from the AST on every run), hence iri_to_uri is ASCII and idempotent component-wise; the dance round trip is lossless for every string; uri_to_iri is a fixpoint after one step on every component whose '%' all start '%XX' escapes (UTF-8 decoder with CPython's error spans modelled; keep tables evaluated from the live patterns); the dispatcher preserves SCRIPT_NAME+PATH_INFO and picks the longest '/'-boundary mount. IRI->URI->IRI is stable after one round for every component of that grammar (the model's UTF-8 decoder and Lean's encoder are proved mutually inverse); unquote inverts quote on text without '%', hence the path given to EnvironBuilder reaches Request.path unchanged through the dances. urlsplit / urlunsplit are modelled too, and the component theorems are lifted to whole URL text for URLs of the grammar (iri_to_uri ASCII + idempotent; uri_to_iri one-step fixpoint; IRI->URI->IRI stable) under stated laws of the opaque IDNA / ipaddress / NFKC steps. Tied to the code by differential streams (incl. urlsplit-kernel and the end-to-end environ-kernel); that Request.url denotes base + path + query is validated by an oracle stream only.",
-    "level_note": "Trusted: Lean kernel; extract.py; the correspondence harness; CPython urllib/codecs for modelled primitives. urlsplit/urlunsplit and IDNA are opaque. All DESIGN theorems (P0, P1) proved. Known finding F15c (EnvironBuilder drops TAB/CR/LF from the path); F15a / F15b were repaired in /repo (c7898ed, 319c4e1) and are regression cases of stream iri-uri.",
+    "level_note": "Trusted: Lean kernel; extract.py; the correspondence harness; CPython urllib/codecs for modelled primitives. urlsplit/urlunsplit and IDNA are opaque. All DESIGN theorems (P0, P1) proved. Known findings F15c (EnvironBuilder drops TAB/CR/LF from the path), F15d (Request.url reads a literal %XX of the unquoted path as an escape); F15a / F15b were repaired in /repo (c7898ed, 319c4e1) and are regression cases of stream iri-uri.",
     "technique": "Lean 4 proof (induction over byte lists, decide over AST-collected literals and regenerated keep tables, loop invariant for the dispatcher) + model/code correspondence + property oracles",
     "design_ref": "DESIGN.md section 4, C15",
 }
